@@ -98,6 +98,9 @@ def histories(depth):
     out = ["-"]
     for n in range(1, depth + 1):
         out += [",".join(h) for h in itertools.product(OPS, repeat=n)]
+    # a partial read (5 bytes: less than any chunk, so decoded bytes stay buffered) in front of and between validations
+    out += ["r5," + ",".join(h) for n in (1, 2) for h in itertools.product(OPS, repeat=n)]
+    out += ["r5,%s,r5,%s" % (a, b) for a in OPS for b in OPS] + ["%s,r5,%s" % (a, b) for a in OPS for b in OPS]
     return out
 
 
@@ -153,6 +156,10 @@ def work(arg):
             bad = None
             for k, (op, ret, fl) in enumerate(steps):
                 ret = int(ret)
+                if op == "r":
+                    # a partial read in front of / between the validations: what the scans report on a context that is in the
+                    # middle of a stream (or in error state after a refused read) is not judged - only the final content is
+                    break
                 scan = op in "VF" or (op == "D" and pd.flags & 4)
                 if scan:
                     cur_flags = flags_ref
@@ -174,6 +181,14 @@ def work(arg):
             obs = (s["last"], s["rclose"], s["content"], s["ferr"])
             if h == "-":
                 baseline = obs
+            elif not bad and baseline is not None and "r" in h:
+                # partial reads mixed with validations: the library may refuse to go on (it does), but if every call
+                # reports success the stream must be the file's content
+                ok_now = obs[0] == "0" and obs[1] == "1" and obs[3] == "0"
+                ok_base = baseline[0] == "0" and baseline[1] == "1" and baseline[3] == "0"
+                if ok_now and (not ok_base or obs[2] != baseline[2]):
+                    bad = ("success-with-other-content-after-partial-read-and-validation", "history %s then read to the end: every call succeeded, %d bytes in total; "
+                           "a plain read %s" % (h, len(core.unhex(obs[2])), "returns %d bytes" % len(core.unhex(baseline[2])) if ok_base else "fails"))
             elif not bad and baseline is not None and obs != baseline:
                 bad = ("read-after-validation-differs", "read after %s gave last=%s close=%s %d bytes; without validation last=%s close=%s %d bytes" % (
                     h, obs[0], obs[1], len(core.unhex(obs[2])), baseline[0], baseline[1], len(core.unhex(baseline[2]))))
